@@ -19,7 +19,7 @@ def i2cDecode (m : Mem) : I2CParsed :=
     else if m.getD 4 0 = 1 then
       { fields := some f, address := some ((m.getD 15 0).toNat * 2 ^ 32 + leVal (slice m 16 20)),
         valid := byteSum (m.take 20) % 256 == (m.getD 20 0).toNat, called := true }
-    else { fields := some f, address := none, valid := false, called := false }
+    else { fields := some f, address := none, valid := false, called := true }     -- unknown version: reported, not valid
   else { fields := none, address := none, valid := false, called := true }
 
 /-! ### deck memory info section, as the firmware (deck_memory.c, version 3) produces it -/
